@@ -4,6 +4,27 @@ import json, os, sys
 V = os.path.dirname(os.path.dirname(os.path.abspath(__file__)))
 
 CHECKS = {
+
+ 'C01': dict(
+   technique='history + executable reference model: every monitor callback, log line, step result and configuration of the real interpreter (ASan/UBSan build) compared step by step with an Appendix-D reference run on the same document and history; seeded random and exhaustively enumerated documents',
+   text='Exploration: seeded random valid documents over the whole structural vocabulary, rendered for lua/promela/null, plus every document of the enumerated family E, each run compared step-by-step (exits, transitions, entries, content, events, done events, configuration, data) with an independent transcription of Appendix D. Decides the executions produced; known deviations are matched exactly against reference variants.',
+   note='Trusted: vf/refscxml.py (reference), vf/chart.py (valid-by-construction generator), the recording driver. Fragment: no invoke/delay/script. Macrosteps over 64 microsteps are discarded.',
+   ref='DESIGN.md 3/C01'),
+ 'C02': dict(
+   technique='runtime invariant monitor: Rec. 3.11 legality predicate evaluated on the configuration reported after every micro step of both engines (and of emitted C machines), root entry/exit counters; ASan/UBSan build',
+   text='Exploration: the same generated/enumerated documents and histories as C01 are run on engines large and fast; after initialisation and every micro step the active configuration is checked against the legality predicate computed from the source document, and <scxml> must be entered once and not exited before completion.',
+   note='Trusted: legality predicate in vf/chart.py. Only configurations reached by the explored histories are judged. FATAL-validated documents are skipped.',
+   ref='DESIGN.md 3/C02'),
+ 'C03': dict(
+   technique='differential runtime monitor: identical document+history executed with engine large and engine fast, complete recorded callback/log/step-result sequences compared line by line (generated documents, family E, W3C IRP corpus)',
+   text='Exploration: every difference between the two recorded traces is a violation unless it is exactly explained by the listed finding (fast = static conflict matrix), which is established by exact equality of both traces with the corresponding reference runs.',
+   note='Trusted: the recording driver is engine-agnostic. IRP documents with delay/invoke/src are excluded from line-exact comparison.',
+   ref='DESIGN.md 3/C03'),
+ 'C13': dict(
+   technique='online push-down protocol checker over every InterpreterMonitor callback recorded from both engines on generated runs incl. injected failing elements, cancel scripts and top-level-final runs',
+   text='Exploration: balanced/nested brackets, phase order exits->transitions->entries, nothing outside brackets but the allowed notices, content inside its owner bracket, configuration explained by reported exits/entries, log lines inside their <log> bracket, one stable notice per macrostep.',
+   note='Trusted: vf/protocol.py automaton; completeness is judged against logs/configurations/events only.',
+   ref='DESIGN.md 3/C13'),
  'C12': dict(
    technique='runtime differential monitor: the real matchers (uscxml::nameMatch, shipped C scaffolding, both engines, emitted C/Promela/VHDL) run on enumerated+random inputs against an executable reference relation; ASan/UBSan build',
    text='Exploration: every pair (descriptor list, name) of a bounded alphabet is put to every subject (exhaustive for the stated bound), plus seeded random longer ones; answers are compared with a 12-line reference of Rec. 3.12.1. Right level because the relation is finite-state and the bounded space covers every branch of the hand-written scanner.',
